@@ -31,7 +31,7 @@ OPS == IntegralOps \cup DirIntegralOps \cup RatioOps \cup WidthOps \cup DirRatio
 \* argument classes per operation ("ok" = documented valid arguments)
 Args(op) ==
   CASE op = "smooth" -> {"ok", "win1", "evenwindow"}
-    [] op = "split" -> {"ok", "offgrid", "inverted_f", "inverted_d"}
+    [] op = "split" -> {"ok", "offgrid", "inverted_f", "inverted_d", "equal_f", "equal_d"}
     [] op = "stats" -> {"ok", "unknown_name", "not_a_container", "names_mismatch"}
     [] op = "bbox" -> {"ok", "overlap"}
     [] op = "interp" -> {"ok", "extend"}
@@ -49,7 +49,7 @@ OneFreqEnergy(nf, s) == nf = 1 \/ s \in {"single", "peaklast"}
 \* energy in one direction only: zero directional spread, the spread formulas evaluate sqrt(0 +- rounding)
 OneDirEnergy(d, s) == d = "one" \/ s = "single"
 
-InvalidArg(op, a) == a \in {"evenwindow", "inverted_f", "inverted_d", "unknown_name", "not_a_container",
+InvalidArg(op, a) == a \in {"evenwindow", "inverted_f", "inverted_d", "equal_f", "equal_d", "unknown_name", "not_a_container",
                             "names_mismatch", "overlap"}
 
 Allowed(nf, d, s, op, a) ==
